@@ -436,3 +436,6 @@ package cdi
 //@ func WithAutoRefresh$1(c *Cache)
 //@   requires c != nil
 //@   requires excl
+// run by sync.Once.Do from the public default-cache functions, which do not hold the mutex
+//@ func getOrCreateDefaultCache$1()
+//@   requires !held
